@@ -560,7 +560,7 @@ struct Verdict
   bool bad() const { return !sig.empty(); }
 };
 
-Verdict judgeConn(const Plan &plan, std::size_t ci, const ConnResult &r)
+Verdict judgeConnInner(const Plan &plan, std::size_t ci, const ConnResult &r, std::string &reorderWhat)
 {
   const ConnPlan &cp = plan.conns[ci];
   Verdict v;
@@ -648,8 +648,9 @@ Verdict judgeConn(const Plan &plan, std::size_t ci, const ConnResult &r)
   }
 
   // ---- in-order matching -------------------------------------------------------------
-  Verdict inOrder;
-  std::size_t firstBad = R.size();
+  // A pipelined burst whose responses are exactly the expected multiset in another order is the
+  // reorder shape (known finding): it is remembered and matching continues behind the burst, so
+  // that it cannot hide a different failure on the same connection.
   for (std::size_t p = 0; p < R.size() && p < expectCount; ++p)
   {
     std::string sig, why;
@@ -665,22 +666,11 @@ Verdict judgeConn(const Plan &plan, std::size_t ci, const ConnResult &r)
         why = "expected the sentinel response, got " + showResp(R[p]) + " (an additional response was written)";
       }
     }
-    if (!why.empty())
-    {
-      inOrder.sig = sig;
-      inOrder.what = pbt::Fmt() << "connection " << ci << ": response " << p << ": " << why;
-      firstBad = p;
-      break;
-    }
-  }
-  if (inOrder.bad())
-  {
-    // Is it exactly the reorder shape? (same burst, every response complete and
-    // well-formed, the multiset of responses is the expected one, order differs)
-    std::size_t bs = firstBad, be = firstBad;
-    while (bs > 0 && cp.items[bs - 1].pipeNext && bs - 1 < n) --bs;
-    while (be < n && cp.items[be].pipeNext && be + 1 < n) ++be;
-    bool shape = firstBad < n && be > bs && R.size() >= be + 1;
+    if (why.empty()) continue;
+    std::size_t bs = p, be = p;
+    while (bs > 0 && bs - 1 < n && cp.items[bs - 1].pipeNext) --bs;
+    while (be < n && be + 1 < n && cp.items[be].pipeNext) ++be;
+    bool shape = p < n && be > bs && R.size() >= be + 1;
     for (std::size_t k = bs; shape && k <= be; ++k)
       if (cp.items[k].closes) shape = false;
     if (shape)
@@ -688,44 +678,46 @@ Verdict judgeConn(const Plan &plan, std::size_t ci, const ConnResult &r)
       // perfect matching between the responses bs..be and the items bs..be
       std::size_t m = be - bs + 1;
       std::vector<std::vector<bool>> ok(m, std::vector<bool>(m, false));
-      for (std::size_t p = 0; p < m; ++p)
+      for (std::size_t q = 0; q < m; ++q)
         for (std::size_t k = 0; k < m; ++k)
         {
           std::string s2;
-          ok[p][k] = matchOne(R[bs + p], cp.items[bs + k], s2).empty();
+          ok[q][k] = matchOne(R[bs + q], cp.items[bs + k], s2).empty();
         }
       std::vector<bool> used(m, false);
-      std::function<bool(std::size_t)> assign = [&](std::size_t p) -> bool
+      std::function<bool(std::size_t)> assign = [&](std::size_t q) -> bool
       {
-        if (p == m) return true;
+        if (q == m) return true;
         for (std::size_t k = 0; k < m; ++k)
-          if (!used[k] && ok[p][k])
+          if (!used[k] && ok[q][k])
           {
             used[k] = true;
-            if (assign(p + 1)) return true;
+            if (assign(q + 1)) return true;
             used[k] = false;
           }
         return false;
       };
       shape = assign(0);
     }
-    if (shape)
+    if (!shape)
+    {
+      fail(sig, pbt::Fmt() << "response " << p << ": " << why);
+      return v;
+    }
+    if (reorderWhat.empty())
     {
       pbt::Fmt f;
       f << "pipelined requests";
       for (std::size_t k = bs; k <= be; ++k) f << " " << cp.items[k].token << "(" << cp.items[k].beh.durMs << "ms)";
       f << " were answered in the order";
-      for (std::size_t p = bs; p <= be; ++p)
+      for (std::size_t q = bs; q <= be; ++q)
       {
-        auto t = R[p].header("X-Tok");
-        f << " " << (t ? *t : std::string("<anon ") + std::to_string(R[p].status) + ">");
+        auto t = R[q].header("X-Tok");
+        f << " " << (t ? *t : std::string("<anon ") + std::to_string(R[q].status) + ">");
       }
-      fail(SIG_REORDER, f);
-      // continue checking the remainder? the first failure wins; stop here
-      return v;
+      reorderWhat = f;
     }
-    fail(inOrder.sig, inOrder.what.substr(inOrder.what.find(": ") + 2));
-    return v;
+    p = be; // continue behind the burst
   }
 
   // ---- counts / closing ---------------------------------------------------------------
@@ -801,6 +793,18 @@ Verdict judgeConn(const Plan &plan, std::size_t ci, const ConnResult &r)
   {
     // closed although nobody asked: only visible when no sentinel was possible; not a
     // violation of the stated property (the server may close a persistent connection)
+  }
+  return v;
+}
+
+Verdict judgeConn(const Plan &plan, std::size_t ci, const ConnResult &r)
+{
+  std::string reorderWhat;
+  Verdict v = judgeConnInner(plan, ci, r, reorderWhat);
+  if (!v.bad() && !reorderWhat.empty())
+  {
+    v.sig = SIG_REORDER;
+    v.what = pbt::Fmt() << "connection " << ci << ": " << reorderWhat;
   }
   return v;
 }
@@ -994,19 +998,17 @@ void labelAndRun(const Plan &plan, pbt::Case &c)
   pbt::watchdog(120, "C16/case-hang");
   Runner run(plan);
   if (!run.run(c)) return;
-  Verdict first;
+  // every connection is judged; a known-finding verdict on one connection must not hide a
+  // different failure on another (Case::fail keeps the first non-known failure)
   for (std::size_t ci = 0; ci < plan.conns.size(); ++ci)
   {
     Verdict v = judgeConn(plan, ci, run.results[ci]);
-    if (v.bad() && !first.bad()) first = v;
     const ConnResult &r = run.results[ci];
     if (r.reset) c.label("connection ended with RST");
     if (r.sendFailed) c.label("send failed (server closed first)");
-  }
-  if (first.bad())
-  {
-    if (first.timed) c.failTimed(first.sig, first.what);
-    else c.fail(first.sig, first.what);
+    if (!v.bad()) continue;
+    if (v.timed) c.failTimed(v.sig, v.what);
+    else c.fail(v.sig, v.what);
   }
 }
 
@@ -1040,6 +1042,13 @@ PBT_PROPERTY(serve)
     cp.startDelayMs = static_cast<int>(src.range(0, 3));
     if (src.coin(1, 5)) cp.readDelayMs = static_cast<int>(src.range(1, 60));
     auto rows = src.rows(8, 8, 0, (1 << 20) - 1);
+    // no empty cases: the first connection always carries at least one request
+    if (ci == 0 && rows.empty())
+    {
+      pbt::Row r0(8, 0);
+      for (auto &x : r0) x = src.range(0, (1 << 20) - 1);
+      rows.push_back(r0);
+    }
     // 1 connection in 6: a dense pipeline of quick requests whose handlers finish at (almost) the same
     // instant on different workers - the schedule in which two responses would interleave on the wire
     const bool dense = src.coin(1, 6);
@@ -1092,6 +1101,9 @@ PBT_PROPERTY(serve)
       case 7: case 8: b.bodySize = 16000 + static_cast<std::size_t>(r[4] / 10) % 290000; break;
       default: b.bodySize = (r[4] / 10) % 3 == 0 ? 1500000 + static_cast<std::size_t>(r[4] / 10) % 2000000 : 60000 + static_cast<std::size_t>(r[4] / 10) % 8000; break;
       }
+      // the property's second non-trivial class needs a close behind a response that does not fit the
+      // socket buffers: one closing request in three gets a 150-300 KiB body (beyond the buffers at MSS 536/88)
+      if (wantClose && r[4] % 3 == 0) b.bodySize = 150000 + static_cast<std::size_t>(r[4] / 10) % 150000;
       b.durMs = (r[5] % 4 == 0) ? 0 : static_cast<int>(r[5] / 4) % 31;
       if (b.status == 204 || b.status == 304)
       {
